@@ -159,7 +159,7 @@ func genScenario(seed int64, nblocks int) conc.Scenario {
 				if i < nout-1 {
 					a = 1 + g.rnd.Int63n(rest-int64(nout-i))
 					if g.rnd.Intn(6) == 0 {
-						a = []int64{1, 999, 1000, 50000, 99999, 100000, 100001}[g.rnd.Intn(7)]
+						a = []int64{0, 0, 1, 999, 1000, 50000, 99999, 100000, 100001}[g.rnd.Intn(9)]
 						if a >= rest-int64(nout-i) {
 							a = 1
 						}
